@@ -65,7 +65,6 @@ UnFails(e) ==
 CmpFails(e) ==
   LET all == {e.lt, e.gt, e.le, e.ge, e.eq, e.ne, e.gtba, e.ltba} IN
   IF "panic" \in all THEN "a comparison crashed; "
-  ELSE IF e.nan THEN ""
   ELSE (IF e.a.t = e.b.t /\ {e.lt, e.gt, e.gtba, e.ltba} \subseteq {"true", "false"}      \* for equal types
         THEN F(e.lt = e.gtba, "a<b differs from b>a") \o F(e.gt = e.ltba, "a>b differs from b<a") ELSE "")
     \o (IF {e.lt, e.gt, e.le, e.ge, e.eq} \subseteq {"true", "false"}
@@ -79,6 +78,7 @@ LawApplies(e) ==
     [] e.law = "addcomm" -> e.a.t = e.b.t /\ e.a.t \in Numeric /\ ~e.nan
     [] e.law = "negneg" -> e.a.t \in Numeric /\ ~e.nan
     [] e.law = "notnot" -> e.a.t \in Integral \cup {"Boolean"}
+    [] e.law = "selfstring" -> e.mgr = "unsafe" /\ e.a.t \in Integral
     [] OTHER -> FALSE
 LawFails(e) ==
   IF e.outcome = "panic" THEN "an operator crashed; "
@@ -86,6 +86,7 @@ LawFails(e) ==
   ELSE CASE e.law \in {"addsub", "negneg", "notnot", "xorxor", "divmod"} ->
               F(e.r.t = e.a.t /\ e.r.s = e.a.s, "algebraic law " \o e.law \o " does not give back the operand")
          [] e.law = "addcomm" -> F(e.r.s = e.r2.s /\ e.r.t = e.r2.t, "addition is not commutative")
+         [] e.law = "selfstring" -> F(e.r.s = "0" /\ e.r2.k = "bool" /\ e.r2.n = 1, "an integer and its own decimal text (second operand converted to the integer type) are not equal")
          [] OTHER -> ""
 
 \* membership: the first decisive comparison in list order
